@@ -56,4 +56,29 @@ CHECKS = {
             {"name": "conc", "test": "TestConc", "quick": 300, "thorough": 3000, "shards": 8, "race": True},
         ],
     },
+    "C02": {
+        "pkg": "c02",
+        "level": "exploration",
+        "level_text": ("Generated-input search at two seams: (1) the public decoder response.NetconfResponse.Record on generated "
+                       "well-formed frames (every byte-level chunk partition incl. cuts inside UTF-8 runes / rpc-error tags) and on "
+                       "generated malformed frames of every class the property lists, judged by a differential oracle against a strict "
+                       "and a tolerant RFC 6242 decoder written for the harness plus a no-invented-bytes (subsequence) invariant; "
+                       "(2) the same replies sent by a NETCONF server model through netconf.Driver over generated read segmentations. "
+                       "The thorough tier adds native coverage-guided fuzzing of the raw decoder input with the same oracle."),
+        "level_note": ("Trusted: harness decoders sim.DecodeChunkedStrict/Lenient, the XML reply generator's own knowledge of what it "
+                       "generated (expected result, has-rpc-error). XML declaration only in the library's own spelling at the start of the payload."),
+        "technique": "property-based testing (rapid) + native go fuzzing; differential oracle vs strict RFC 6242 decoder; round trip through the driver",
+        "rule": ("decode: reply payload x byte-level chunk partition x lead/trail LF (1.1) or EOM framing (1.0); malformed: 19 mutation classes "
+                 "of a valid frame (truncate at any offset, size too big/small/zero/negative/signed/non-numeric/11 digits/huge, missing LF, "
+                 "missing/duplicated terminator, garbage after, empty, only '#', random bytes); driver: replies through netconf.Driver with cut plans. "
+                 "Non-trivial: >=2 chunks, or rpc-error, or XML declaration (decode); any class other than empty/valid (malformed); distinct = sha1(case)."),
+        "assumptions": ["payload text never contains the literal rpc-error outside an rpc-error element",
+                        "leniencies (sign / leading zeros in sizes, extra LFs, bytes after end-of-chunks) may be rejected or decoded, both accepted"],
+        "subs": [
+            {"name": "decode", "test": "TestDecode", "quick": 20000, "thorough": 300000, "shards": 16},
+            {"name": "malformed", "test": "TestMalformed", "quick": 20000, "thorough": 300000, "shards": 16},
+            {"name": "driver", "test": "TestDriver", "quick": 600, "thorough": 6000, "shards": 16},
+            {"name": "fuzz11", "test": "FuzzRecord11", "fuzz": True, "fuzztime": "150s", "thorough_only": True},
+        ],
+    },
 }
